@@ -131,6 +131,7 @@ def catalogue():
     c["str-regex-unanchored"] = ({"k": "Str", "o": {"regex": "a.c", "default": "abc"}}, ["abc", "axcde"], ["xabc", "9 abc", "X\nabc", 5])
     c["file-new-in-dir"] = ({"k": "File", "o": {"exists": False, "startdir": "@FW"}}, ["/nonexistent-dir-zq/abs", "fresh.log"], ["taken.log", "adir", 5])
     c["file-in-dir"] = ({"k": "File", "o": {"exists": "file", "startdir": "@FW"}}, ["taken.log"], ["fresh.log", "adir"])
+    c["file-in-homedir"] = ({"k": "File", "o": {"exists": "file", "startdir": "@FW~"}}, ["taken.log"], ["fresh.log", "adir"])      # the same directory, named home-relative
     c["dir-in-dir"] = ({"k": "File", "o": {"exists": "dir", "startdir": "@FW"}}, ["adir"], ["fresh.log", "taken.log"])
     c["dict-any-dflt"] = ({"k": "Dict", "o": {"default": D(("d", 1))}}, [D(("k", 1))], ["x"])
     c["list-any-dflt"] = ({"k": "List", "o": {"default": [1, [2]]}}, [[3]], ["x"])
@@ -144,7 +145,7 @@ def core_leaves():
 
 def option_leaves():
     return ["int-fracbounds", "int-negfrac", "port-fracmin", "str-case-spelled", "loglevel-case-spelled", "str-req-min0", "str-regex-unanchored", "url-norm", "host-norm", "ipv4-strip",
-            "file-new-in-dir", "file-in-dir", "dir-in-dir"]
+            "file-new-in-dir", "file-in-dir", "dir-in-dir", "file-in-homedir"]
 
 
 def quick_leaves():
